@@ -45,21 +45,31 @@ Ltac kill_abs :=
       first [ rewrite (Rabs_pos_eq e) by lra | rewrite (Rabs_left1 e) by lra ]
   end.
 
-(* one axis: split into interior cell / far face, decide the kernel's `i1 =? n-1` accordingly *)
-Ltac axis_split C i1 :=
+(* the kernel selects a tuple (corner values, cell bounds) by a nested `if`, then uses it many times:
+   name the selection `u`, keep ONE copy of it as an equation Eu : u = if ... *)
+Ltac name_selection u Eu :=
+  match goal with
+  | |- context [snd (if ?c then ?a else ?b)] => set (u := if c then a else b)
+  | |- context [fst (if ?c then ?a else ?b)] => set (u := if c then a else b)
+  end;
+  pose proof (eq_refl u) as Eu; unfold u at 2 in Eu; clearbody u.
+
+(* one axis: split into interior cell / far face, decide the kernel's `i1 =? n-1` in Eu accordingly *)
+Ltac axis_split C i1 Eu :=
   let Hi := fresh "Hi" in let Hm := fresh "Hm" in let Hl := fresh "Hl" in
   let Hu := fresh "Hu" in let Hq := fresh "Hq" in let Hd := fresh "Hd" in
   destruct C as [(Hi & Hm & Hl & Hu) | (Hi & Hm & Hq & Hd)]; rewrite Hm;
-  [ match goal with |- context [Z.eqb i1 ?m] =>
-      replace (Z.eqb i1 m) with false by (symmetry; apply Z.eqb_neq; lia) end
-  | match goal with |- context [Z.eqb i1 ?m] =>
-      replace (Z.eqb i1 m) with true by (symmetry; apply Z.eqb_eq; lia) end;
+  [ match type of Eu with context [Z.eqb i1 ?m] =>
+      replace (Z.eqb i1 m) with false in Eu by (symmetry; apply Z.eqb_neq; lia) end
+  | match type of Eu with context [Z.eqb i1 ?m] =>
+      replace (Z.eqb i1 m) with true in Eu by (symmetry; apply Z.eqb_eq; lia) end;
     subst i1;
-    match goal with |- context [(?n - 2 + 1)%Z] => replace (n - 2 + 1)%Z with (n - 1)%Z by lia end ].
+    match goal with |- context [(?n - 2 + 1)%Z] => replace (n - 2 + 1)%Z with (n - 1)%Z by lia end ];
+  cbn [andb negb] in Eu.
 
 (* one branch of the kernel, after the axis splits *)
-Ltac branch_done :=
-  cbn [fst snd andb negb];
+Ltac branch_done u :=
+  subst u; cbn [fst snd];
   repeat match goal with H : ?q = get _ _ _ |- _ => is_var q; subst q end;
   kill_abs; field; repeat split; lra.
 
@@ -73,15 +83,16 @@ Proof.
   pose proof (ssrR_cases x nx xq Ax Hx0 Hx1) as Cx.
   pose proof (ssrR_cases y ny yq Ay Hy0 Hy1) as Cy.
   unfold bilin, bilin_core, cell, u_interp2d_v.
+  (* work on the un-expanded lets first: every rewritten term occurs once *)
   rewrite (axis_dim _ _ Ax), (axis_dim _ _ Ay), (dim2_0 v _ _ Sv), (dim2_1 v _ _ Sv).
-  cbv beta zeta delta [nleb nsub nmul nadd ndiv nabs nofZ NumR].
-  cbn [fst snd].
+  cbv beta iota delta [nleb nsub nmul nadd ndiv nabs nofZ NumR].
   rewrite (proj2 (Rleb_true _ _) Hx0), (proj2 (Rleb_true _ _) Hx1),
           (proj2 (Rleb_true _ _) Hy0), (proj2 (Rleb_true _ _) Hy1).
-  cbn [andb negb].
   remember (searchsorted_right x xq - 1)%Z as i1 eqn:Ei1. clear Ei1.
   remember (searchsorted_right y yq - 1)%Z as j1 eqn:Ej1. clear Ej1.
-  axis_split Cx i1; axis_split Cy j1; branch_done.
+  cbv zeta. cbn [fst snd andb negb].
+  name_selection u Eu.
+  axis_split Cx i1 Eu; axis_split Cy j1 Eu; branch_done u.
 Qed.
 
 (* ================================================================== *)
